@@ -2,6 +2,7 @@ import Ecal.Model.Engine
 import Ecal.Lemmas.EngineBasic
 import Ecal.Lemmas.EngineScope
 import Ecal.Lemmas.EngineRoot
+import Ecal.Lemmas.EngineBits
 /-!
 # C01 — exactly the matching, in-scope, unsuppressed rules fire once per event
 
@@ -253,5 +254,50 @@ example : Spec.matchCount (fun _ _ => true) [rA, rS, rT] eAB rA = 2 := by decide
 example : triggering (Scope.build [([], true), (["p"], false)]) [rA, rA, rS, rT] [] = [rA, rS] := by decide
 example : executing [rA, rS] = [rS] := by decide
 example : rA.WF ∧ rS.WF ∧ rT.WF := by simp [Rule.WF, rA, rS, rT]
+
+/-! ## the 64-bit masks of a state leaf (`bitmask_faithful`, the part that is proved) -/
+
+/-- `unmatch` (key missing in the event): rule `i` stays iff it does not constrain the key. -/
+theorem bitmask_unmatch_bit (km : KeyMatcher) (cur : W) (i : Nat) :
+    (kmUnmatch km cur).getLsbD i = (cur.getLsbD i && !km.bits.getLsbD i) := kmUnmatch_bit km cur i
+
+/-- The mask step of `match` (key present): rule `i` stays iff it was in and does not constrain the
+    key, or accepts any value (nil / regex, checked afterwards), or asks for exactly this value
+    (`add` = the mask stored for the value; 0 if none). -/
+theorem bitmask_match_bit (bits bitsAny add cur : W) (i : Nat)
+    (hAny : bitsAny &&& bits = bitsAny) (hAdd : add &&& bits = add) :
+    (cur ^^^ (cur &&& ((bitsAny ||| add) ^^^ bits))).getLsbD i =
+      (cur.getLsbD i && (!bits.getLsbD i || bitsAny.getLsbD i || add.getLsbD i)) :=
+  matchStep_bit bits bitsAny add cur i hAny hAdd
+
+example : (0b0011#64 : W) &&& 0b0111#64 = 0b0011#64 := by decide
+
+/-- The collection loop ends (no hang, no index panic) when bit 63 of the mask is clear and no bit
+    beyond the leaf's rules is set — which the capacity of 63 rules per leaf guarantees. -/
+theorem collect_terminates (rules : List Rule) (mb : W) (hmsb : mb.getLsbD 63 = false)
+    (hlen : ∀ i, mb.getLsbD i = true → i < rules.length) :
+    ∃ l, collect rules mb collectFuel 0 1 [] = .ok l := by
+  have := collect_ok rules mb hmsb hlen 63 0 collectFuel [] (by omega) (by simp [collectFuel])
+  simpa using this
+
+example : (0b101#64 : W).getLsbD 63 = false ∧ ∀ i, (0b101#64 : W).getLsbD i = true → i < [rA, rS, rT].length := by
+  refine ⟨by decide, ?_⟩
+  intro i h
+  by_cases hi : i < 3
+  · simpa using hi
+  · exfalso
+    have h64 : i < 64 := by
+      by_cases h' : i < 64
+      · exact h'
+      · simp [BitVec.getLsbD_of_ge _ _ (by omega : 64 ≤ i)] at h
+    have : i ∈ List.range 64 := List.mem_range.mpr h64
+    revert h hi
+    revert i
+    decide
+
+/-- Negative witness (the defect repaired by 1d04360): with 64 rules in one leaf, bit 63 set, the
+    loop never ends — no fuel suffices, here 100 rounds. -/
+theorem collect_diverges_at_63 :
+    collect (List.replicate 64 rA) ((1 : W) <<< 63) collectFuel 0 1 [] = .hang := by decide
 
 end Ecal.Props.C01
